@@ -47,4 +47,42 @@ theorem C20_avx_transpose128 (s : Regs Bool) (row col : Nat) (hr : row < 128) (h
   have h2 : row % 2 * 128 + col < 256 := by omega
   simp [InR, pos, h1, h2]
 
+/-! ### the executable (array-backed) form is the same function on the register file -/
+
+theorem range_F0 : ∀ r < 64, ∀ q < 256, InR (pullI a1 a2 1 (r, q)) = true := by decide +kernel
+theorem range_F1 : ∀ r < 64, ∀ q < 256, InR (pullI (b1 2) (b2 2) 1 (r, q)) = true := by decide +kernel
+theorem range_F2 : ∀ r < 64, ∀ q < 256, InR (pullI (b1 4) (b2 4) 2 (r, q)) = true := by decide +kernel
+theorem range_F3 : ∀ r < 64, ∀ q < 256, InR (pullI (b1 8) (b2 8) 4 (r, q)) = true := by decide +kernel
+theorem range_F4 : ∀ r < 64, ∀ q < 256, InR (pullI (b1 16) (b2 16) 8 (r, q)) = true := by decide +kernel
+theorem range_F5 : ∀ r < 64, ∀ q < 256, InR (pullI (b1 32) (b2 32) 16 (r, q)) = true := by decide +kernel
+theorem range_F6 : ∀ r < 64, ∀ q < 256, InR (pullI c1 c2 32 (r, q)) = true := by decide +kernel
+
+/-- `a` holds the register file `s` -/
+def EqOn (a : Array Bool) (s : Regs Bool) : Prop := ∀ r < 64, ∀ q < 256, ofArr a r q = s r q
+
+theorem eqOn_toArr (s : Regs Bool) : EqOn (toArr s) s := fun r hr q hq => ofArr_toArr s r q hr hq
+
+theorem eqOn_stage (f : PF) (hf : ∀ ρ, Commutes (α := Sym) (β := Bool) (h := ev ρ) f) (hs : Sing f) (i1 i2 : Nat → Nat) (hi : IdxOK f i1 i2)
+    (off : Nat) (hoff : 0 < off) (hp : PairsOK off) (hrange : ∀ r < 64, ∀ q < 256, InR (pullI i1 i2 off (r, q)) = true)
+    (a : Array Bool) (s : Regs Bool) (h : EqOn a s) : EqOn (toArr (stage f off (ofArr a))) (stage f off s) := by
+  intro r hr q hq
+  rw [ofArr_toArr _ r q hr hq, stage_bit f hf hs i1 i2 hi off hoff hp _ r q hr hq, stage_bit f hf hs i1 i2 hi off hoff hp _ r q hr hq]
+  have := hrange r hr q hq
+  simp only [InR, Bool.and_eq_true, decide_eq_true_eq] at this
+  exact h _ this.1 _ this.2
+
+theorem transpose128A_eq (s : Regs Bool) : EqOn (transpose128A s) (transpose128 s) := by
+  have hc0 := fun ρ => t2x2_commutes (ev_isHom ρ)
+  have hc (sh m : Nat) := fun ρ => pswap_commutes (ev_isHom ρ) sh m
+  have hc6 := fun ρ => pswap64_commutes (α := Sym) (β := Bool) (h := ev ρ)
+  unfold transpose128A transpose128
+  simp only []
+  exact eqOn_stage F6 hc6 sing_pswap64 c1 c2 idx_F6 32 (by omega) pairsOK_32 range_F6 _ _
+    (eqOn_stage F5 (hc 32 _) sing_pswap5 _ _ idx_F5 16 (by omega) pairsOK_16 range_F5 _ _
+    (eqOn_stage F4 (hc 16 _) sing_pswap4 _ _ idx_F4 8 (by omega) pairsOK_8 range_F4 _ _
+    (eqOn_stage F3 (hc 8 _) sing_pswap3 _ _ idx_F3 4 (by omega) pairsOK_4 range_F3 _ _
+    (eqOn_stage F2 (hc 4 _) sing_pswap2 _ _ idx_F2 2 (by omega) pairsOK_2 range_F2 _ _
+    (eqOn_stage F1 (hc 2 _) sing_pswap1 _ _ idx_F1 1 (by omega) pairsOK_1 range_F1 _ _
+    (eqOn_stage F0 hc0 sing_t2x2 a1 a2 idx_F0 1 (by omega) pairsOK_1 range_F0 _ _ (eqOn_toArr s)))))))
+
 end PolytuneModel.Avx
